@@ -28,9 +28,9 @@ TRUSTED = [
 ASSUMPTIONS = [
     "autoescape off, default delimiters, default Undefined; variable values are strings",
     "theorems quantify over hierarchies of the documented shape: every child starts with {% extends %} or "
-    "{% if flag %}{% extends %}{% endif %}, nothing else at child top level is a second extends or a for loop, template "
-    "names along the chain are distinct; outside that shape (text before extends, second extends, missing templates) only "
-    "the model/implementation correspondence is checked",
+    "{% if flag %}{% extends %}{% endif %}, nothing else at child top level is a second extends, template names along the "
+    "chain are distinct; outside that shape (text or blocks before extends, second extends, missing templates) only the "
+    "model/implementation correspondence is checked",
     "recursion budget: hierarchies whose rendering recurses without bound (self.a() inside a) are not generated",
 ]
 CLAIM = dict(
@@ -41,21 +41,22 @@ CLAIM = dict(
          "variable bindings and every recursion budget: blocks_after_chain (after the root functions have run, "
          "context.blocks[b] is the list of definitions of b most-derived first), render_chain (model render = specification: "
          "the root template's content with every block placeholder filled by its most-derived definition, nothing from the "
-         "children outside blocks; static, conditional and variable extends), super_next (super() in the i-th definition "
-         "renders the (i+1)-th, super.super the (i+2)-th, undefined when absent), self_most_derived (self.b() renders "
-         "blocks[b][0]), scoped_sees_locals (a scoped placeholder passes the loop variables, an unscoped one does not), "
-         "required_root_partial (a required block declared in the chain's root raises iff no descendant overrides it), "
-         "extends_twice (a second executed extends raises TemplateRuntimeError). The full-strength required statement "
-         "(RequiredAnywhere: declared anywhere in the chain) is kept as a Prop and is false of model and code "
-         "(Findings/F3.lean). Tie: L-e2e on generated DictLoader hierarchies (depth 1-4, 1-5 block names, nesting, "
-         "super/super.super/self, scoped blocks in loops, required at every level, conditional/variable/Template-object "
+         "children outside blocks, also not from if/for bodies at their top level; static, conditional and variable "
+         "extends), child_root_silent, super_next (super() in the i-th definition renders the (i+1)-th, super.super the "
+         "(i+2)-th, undefined when absent), self_most_derived (self.b() renders blocks[b][0], raises on a required head), "
+         "scoped_sees_locals (a scoped placeholder passes the loop variables, an unscoped one does not), required_anywhere "
+         "(full strength: wherever `required` is declared, rendering raises exactly when the most-derived definition of a "
+         "rendered block is a required declaration), required_most_derived_raises, required_via_super_renders, "
+         "required_root_iff, extends_twice (a second executed extends raises TemplateRuntimeError). Tie: L-e2e on "
+         "generated DictLoader hierarchies (depth 1-4, 1-5 block names, nesting, super/super.super/self, scoped blocks in "
+         "loops, required at every level, top-level loops with blocks in children, conditional/variable/Template-object "
          "extends; sync, async, generate, stream) against the model's result for the same structure sent over the wire, the "
          "specification deciding every difference; L-unit on Template.blocks, Context.blocks after the root functions, "
          "Context.super/BlockReference depth arithmetic; exhaustive small scope (<=3 templates x <=2 block names x "
          "{absent, plain, super, required} quick; <=4 thorough).",
     note="Trusted: hand transcription of the generated code (tied by correspondence only, no L-code layer), text rendering of "
-         "structures in the harness. Partial: required blocks (one clause, F3); the theorems exclude top-level for loops in "
-         "child templates (second finding) and text before extends (documented as printed).",
+         "structures in the harness. The theorems do not cover text/blocks before extends (documented as printed), a second "
+         "extends, or `with`/`filter` bodies (not in the piece language; covered by the unit tests of the repair only).",
     design_ref="§5 C04",
 )
 
@@ -393,7 +394,7 @@ class HG:
                     other = r.choice(["c0", "zz"])
                     post = [r.choice([["extl", other], ["if", r.choice(["t", "u"]), [["extl", other]]]])]
                     self.feat.add("second-extends")
-                body = pre + head + self.top_body(lvl, names, declared, r.random() < 0.12) + post
+                body = pre + head + self.top_body(lvl, names, declared, r.random() < 0.3) + post
                 if post and r.random() < 0.5:
                     body += self.top_body(lvl, names, declared, False)
             tpls.append([cname, body])
@@ -503,37 +504,18 @@ def judge(res, case, rep, impl, stats, layer):
                         f"Context.blocks after the root functions of {d}: {impl['blocks']!r}, model {mb!r}",
                         {"case": case, "impl": impl["blocks"], "model": mb}, no_input=spec == "none")
     if all(v == model for k, v in impl.items() if k != "blocks"):
-        if isinstance(verdict, list) and verdict[0] == "finding":
-            for key in verdict[1:]:
-                stats["findings"][key] = stats["findings"].get(key, 0) + 1
-                res.violate("C04:" + key,
-                            FINDING_TEXT.get(key, key) + f" Example: {d} renders {model!r}; documented {spec!r}.",
-                            {"case": case, "impl": model, "spec": spec})
-        elif verdict == "unexplained":
+        if verdict == "unexplained":
             res.violate(f"C04:{layer}:{model[0] if model[0] == 'out' else model[1]}-instead-of-"
                         f"{spec[0] if spec[0] == 'out' else spec[1]}",
                         f"{d} renders {model!r} (model agrees); documented result {spec!r}",
                         {"case": case, "impl": model, "spec": spec})
 
 
-FINDING_TEXT = {
-    "required:declared-in-middle-template":
-        "F3: a `required` block declared in a template that is not the root of the chain and never overridden below it "
-        "renders (empty) instead of raising TemplateRuntimeError: the `len(context.blocks[name]) <= 1` check is emitted only "
-        "at the declaring template's own call site (compiler.py:964-971), which a child template never executes, and it "
-        "counts the ancestors' definitions.",
-    "child:block-in-toplevel-loop-rendered":
-        "a block inside a top-level `for` of a child template is rendered by the child's root function (before the parent's "
-        "content, with the block stack registered so far): visit_Block skips the call only when frame.toplevel "
-        "(compiler.py:949-953), and a `for` body is not a toplevel frame.",
-}
-
-
 def run(ctx, res):
     jinja2 = core.import_jinja()
-    stats = {"oom": 0, "outcome": {}, "verdict": {}, "chain_len": {}, "findings": {}}
+    stats = {"oom": 0, "outcome": {}, "verdict": {}, "chain_len": {}}
 
-    # ---- F3 replay first (the ledger entry, on the real code and in the model) -----------------------------
+    # ---- regression cases first: the two repaired defects (F3, block in a child's top-level loop) -------------
     f3 = {"tpls": [["c0", [["t", "["], ["b", "b", False, False, [["t", "base"]]], ["t", "]"]]],
                    ["c1", [["extl", "c0"], ["b", "b", False, True, []]]],
                    ["c2", [["extl", "c1"]]]], "vars": [], "main": "c2", "tplobj": []}
@@ -583,8 +565,6 @@ def run(ctx, res):
             judge(res, c, rep, impl, stats, layer)
 
     unit = run_unit(ctx, res, jinja2, tb_jobs)
-    f3_ok, _log = core.lake_build(["JinjaV.Findings.F3"]) if not ctx.proof_broken else (False, "")
-    loop_ok, _log = core.lake_build(["JinjaV.Findings.C04Loop"]) if not ctx.proof_broken else (False, "")
     res.coverage.update({
         "evaluations": evaluations + unit["evaluations"],
         "distinct_nontrivial": len(distinct) + unit["distinct"],
@@ -604,11 +584,6 @@ def run(ctx, res):
         "chain_length_distribution(0 = specification does not judge)": stats["chain_len"],
         "features_hit": dict(sorted(feats.items())),
         "out_of_model": stats["oom"],
-        "findings_seen": stats["findings"],
-        "F3_witness": ("Findings/F3.lean builds: the full-strength required statement is false of the model"
-                       if f3_ok else "Findings/F3.lean does not build: F3 no longer reproduces in the model"),
-        "child_loop_witness": ("Findings/C04Loop.lean builds: render_chain is false once a child may have a top-level for "
-                               "with blocks" if loop_ok else "Findings/C04Loop.lean does not build"),
         "unit": {k: v for k, v in unit.items() if k != "rule"},
     })
 
